@@ -139,6 +139,10 @@ F5_SIG = {"site": "watching.continuous_watch",
           "shape": "object deleted inside a re-list gap (410 / pause / backoff): DELETED is never yielded, the fresh listing just omits it"}
 F6_SIG = {"site": "orchestration.orchestrator.exception_handler",
           "shape": "watcher exits on HTTP 404 while the orchestrator is idle: nobody is notified, the served pair stays unwatched until the next revision"}
+F7_SIG = {"site": "observation.process_discovered_namespace_event",
+          "shape": "namespace deleted and re-created under the same name: the events of the two incarnations (per-uid workers) are applied out of order, the existing namespace ends up unserved"}
+F8_SIG = {"site": "observation.process_discovered_namespace_event/process_discovered_resource_event",
+          "shape": "namespace or CRD created/deleted while the meta-watch is down (re-list gap, start-up double listing): the listed items are ignored, the change never reaches the insights"}
 F4_SIG = {"site": "orchestration.spawn_missing_watchers",
           "shape": "dead watcher task (ended with an exception) keeps its key: the served pair is never watched again"}
 
@@ -185,7 +189,7 @@ def gen_script(rng: random.Random, seed: int) -> dict:
     paused = any(o[1] == "pause" for o in ops)
     http = False
     killers = rng.random() < 0.12
-    use_http410 = rng.random() < 0.08
+    use_http410 = rng.random() < 0.2
     t = 0.0
     for _m in range(rng.choice([3, 4, 5, 6, 7, 8, 10])):
         t += rng.choice([1 / 64, 1 / 8, 0.5, 1.0, 1.0, 2.5, 4.0, 9.0])
@@ -202,7 +206,7 @@ def gen_script(rng: random.Random, seed: int) -> dict:
             elif q < 0.62:
                 how = rng.choice(["eof", "eof", "conn", "conn", "410"])
                 if killers and rng.random() < 0.3:
-                    how = rng.choice(["error", "garbage"])
+                    how = rng.choice(["error", "garbage", "error_nocode"])
                 cluster_ops.append(["break", how])
             elif q < 0.70:
                 cluster_ops.append(["bookmark"])
@@ -213,6 +217,8 @@ def gen_script(rng: random.Random, seed: int) -> dict:
             elif q < 0.97:
                 kind = rng.choice(["429", "429", "conn", "timeout", "500", "403"] + (["404"] if killers else []))
                 target = rng.choice(["list", "watch", "watch"])
+                if target == "list" and rng.random() < 0.1:
+                    kind = "410"        # HTTP 410 on a listing (no resourceVersion was sent: a confused proxy/server)
                 if kind == "timeout" and target == "watch" and st["client_timeout"] > 8:
                     kind = "conn"       # the fake sleeps the whole client timeout: keep the run short
                 count = rng.choice([1, 2, 3, 4])
@@ -341,7 +347,9 @@ def derive(obs: list) -> dict:
                 if how != "cancelled":
                     add(["respond"] if how in ("ok", "gone") else ["failReq", how if how in ("conn", "timeout", "tooMany", "fatal") else "timeout"])
                 continue        # the model's `notice` has already ended the request (answers after it change nothing)
-            if how in ("ok", "gone"):
+            if kind == "list" and how == "gone":
+                add(["failReq", "tooMany"])     # HTTP 410 on a LIST: swallowed by infinite_watch like an escalated 429
+            elif how in ("ok", "gone"):
                 add(["respond"])
                 if kind == "list" and how == "ok":
                     list_rv = int((extra or {}).get("rv") or 0)
@@ -476,6 +484,15 @@ def oracle_stream(sc: dict, r: dict) -> list[tuple[str, dict]]:
                 expect_raise = True
         elif k == "yield":
             typ, name, rv = rec[1], rec[2], rec[3]
+            ty = rec[4] if len(rec) > 4 else None
+            if ty is not None and pauses and pauses[-1][1] is None and ty > pauses[-1][0]:
+                # strictly later than the pause (the pause→notice window has no virtual duration)
+                if typ in ("ADDED", "MODIFIED", "DELETED", "BOOKMARK"):
+                    fails.append((f"a {typ} event was yielded at t={ty} while paused since t={pauses[-1][0]}",
+                                  {"site": "watching.streaming_block", "shape": "watch event yielded while paused"}))
+                elif typ is None and not any(f[1] is F2_SIG for f in fails):
+                    fails.append((f"the items of a listing were yielded at t={ty} while paused since t={pauses[-1][0]} "
+                                  "(the listing, begun before the pause, is not abandoned)", F2_SIG))
             if expect_raise:
                 fails.append(("an event was yielded after an unknown ERROR event: the error was skipped",
                               {"site": "watching.continuous_watch", "shape": "unknown ERROR event not raised"}))
@@ -752,7 +769,75 @@ def gen_rapid(rng: random.Random, seed: int) -> dict:
             **({"rv0": rng.choice([0, 2, 88, 92, 988])} if rng.random() < 0.3 else {})}
 
 
+def gen_meta(rng: random.Random, seed: int) -> dict:
+    """Disturb the observers' OWN watch-streams (namespaces / customresourcedefinitions): 410, EOF, connection
+    errors, compaction; namespaces and CRDs created/deleted inside the re-list gap (the 0.125 s reconnect backoff),
+    between the observer's own listing and the stream's first one (t ≈ 3/64 s), and outside any gap."""
+    clusterwide = rng.random() < 0.25
+    handlers = ["kopfexamples"] + [p for p in ["widgets", "clusterthings"] if rng.random() < 0.5]
+    init_res = ["kopfexamples"] + [p for p in ["widgets", "clusterthings"] if rng.random() < 0.4]
+    init_ns = ["team-a"] + [n for n in ["team-b", "other"] if rng.random() < 0.5]
+    tl: list[list] = []
+
+    def churn(t: float) -> list:
+        if rng.random() < 0.6:
+            return [t, rng.choice(["add_ns", "add_ns", "del_ns"]), rng.choice(["team-a", "team-b", "team-c", "team-d"])]
+        return [t, rng.choice(["add_res", "add_res", "del_res"]), rng.choice(["widgets", "clusterthings"])]
+
+    if rng.random() < 0.3:      # the start-up gap
+        tl.append(churn(rng.choice([1 / 32, 13 / 256, 13 / 256, 1 / 16])))
+    tl.append([3.0, "check"])
+    t = 4.0
+    for _ in range(rng.choice([1, 1, 2])):
+        meta = rng.choice(["namespaces", "namespaces", "customresourcedefinitions"])
+        how = rng.choice(["410", "410", "eof", "conn"])
+        if rng.random() < 0.25:
+            tl.append([t, "compact", meta])
+        tl.append([t, "break", meta, how])
+        for _k in range(rng.choice([1, 1, 2])):
+            tl.append(churn(t + rng.choice([0.0, 1 / 64, 1 / 16, 3 / 32, 0.5, 1.0])))
+        t += 3.0
+    tl.append([t, "create", "kopfexamples", rng.choice(["team-a", "team-c", "team-d"]), "z"])
+    t += 6.0
+    tl.append([t, "check"])
+    return {"seed": seed, "clusterwide": clusterwide, "patterns": ["team-*"], "handlers": handlers,
+            "initial_resources": init_res, "initial_namespaces": init_ns, "timeline": tl, "end": t + 2.0, "meta": True,
+            **({"rv0": rng.choice([0, 2, 88, 92, 988])} if rng.random() < 0.3 else {})}
+
+
 SCOPE = {"kopfexamples": True, "widgets": True, "clusterthings": False}
+META_PLURALS = ("namespaces", "customresourcedefinitions")
+
+
+def _meta_gaps(sc: dict) -> dict:
+    """Time windows in which a meta-watch is down and will re-LIST (not resume): after a 410 on it (in-stream, or
+    a too-old resume after a compaction), and the start-up double listing."""
+    gaps: dict[str, list] = {"namespaces": [[0.0, 0.1]], "customresourcedefinitions": [[0.0, 0.1]]}
+    compacted: dict[str, float] = {}
+    for o in sorted(sc["timeline"], key=lambda x: x[0]):
+        if o[1] == "compact" and o[2] in META_PLURALS:
+            compacted[o[2]] = o[0]
+        if o[1] == "break" and o[2] in META_PLURALS and (o[3] == "410" or o[2] in compacted):
+            gaps[o[2]].append([o[0], o[0] + 0.25])
+    return gaps
+
+
+def _in_gap(sc: dict, kind: str, name: str) -> bool:
+    gaps = _meta_gaps(sc)
+    ops = ("add_ns", "del_ns") if kind == "ns" else ("add_res", "del_res")
+    meta = "namespaces" if kind == "ns" else "customresourcedefinitions"
+    return any(o[1] in ops and o[2] == name and any(g[0] <= o[0] <= g[1] for g in gaps[meta]) for o in sc["timeline"])
+
+
+def _recreated(sc: dict, name: str) -> bool:
+    ops = sorted((o for o in sc["timeline"] if o[1] in ("add_ns", "del_ns") and o[2] == name), key=lambda x: x[0])
+    seen_del = False
+    for o in ops:
+        if o[1] == "del_ns":
+            seen_del = True
+        elif seen_del:
+            return True
+    return False
 
 
 def oracle_operator(sc: dict, r: dict) -> list[tuple[str, dict]]:
@@ -779,13 +864,19 @@ def oracle_operator(sc: dict, r: dict) -> list[tuple[str, dict]]:
             if not missing and not dup and not nss and all((not SCOPE[g[0]]) and g[1] is None and g[0] in served for g in extra):
                 fails.append((f"t={c['t']}: no namespace is served but the cluster-scoped watch(es) {extra} are still open", F3_SIG))
             elif not extra and not dup and missing and all(m[0] in r.get("not_found", []) for m in missing) and \
-                    not any(o[1] in ("add_ns", "del_ns", "add_res", "del_res") and o[0] >= min(r["not_found_at"][m[0]] for m in missing)
-                            for o in sc["timeline"] if o[0] <= c["t"] - 1.0):
+                    not any(p[0] >= max(r["not_found_at"][m[0]] for m in missing) and p[1] <= c["t"] for p in r.get("passes", [])):
                 fails.append((f"t={c['t']}: served pair(s) {missing} have no watch: the watcher exited on HTTP 404 and no revision of the "
                               "insights followed, so no pass has replaced it", F6_SIG))
             elif not extra and not dup and missing and all(m[0] in r.get("not_found", []) for m in missing):
                 fails.append((f"t={c['t']}: served pair(s) {missing} have no watch: the watcher died on HTTP 404 while its CRD was away, "
                               "its key stayed in the ensemble, and it is never started again", F4_SIG))
+            elif not dup and (extra or missing) and all(
+                    (SCOPE[m[0]] and m[1] is not None and _in_gap(sc, "ns", m[1])) or _in_gap(sc, "res", m[0]) for m in extra + missing):
+                fails.append((f"t={c['t']}: open watches {got} != served pairs {want}: the namespace/CRD of {extra + missing} changed while "
+                              "its meta-watch was down and was only seen in a listing, which the observers ignore", F8_SIG))
+            elif not dup and not extra and missing and all(SCOPE[m[0]] and m[1] is not None and _recreated(sc, m[1]) for m in missing):
+                fails.append((f"t={c['t']}: served pair(s) {missing} have no watch: the namespace was deleted and re-created, and the "
+                              "DELETED of the old incarnation was applied after the ADDED of the new one", F7_SIG))
             elif not extra and not dup and missing and all(m[0] in gone410 for m in missing):
                 fails.append((f"t={c['t']}: served pair(s) {missing} have no watch: the watcher died on HTTP 410 and is never restarted", F1_SIG))
             else:
@@ -814,10 +905,16 @@ def oracle_operator(sc: dict, r: dict) -> list[tuple[str, dict]]:
             if not SCOPE[plural] and ok_ns is not None and not ok_ns:
                 continue        # no namespace is served: no (resource, namespace) pair is served at all
             if seen.get((plural, ns, name)) != rv:
-                if (plural, ns if SCOPE[plural] and ok_ns is not None else None) not in open_now and plural in r.get("not_found", []) and \
-                        not any(o[1] in ("add_ns", "del_ns", "add_res", "del_res") and o[0] >= r["not_found_at"][plural] for o in sc["timeline"]):
+                pair_open = (plural, ns if SCOPE[plural] and ok_ns is not None else None) in open_now
+                if not pair_open and ((SCOPE[plural] and ns is not None and _in_gap(sc, "ns", ns)) or _in_gap(sc, "res", plural)):
+                    fails.append((f"{plural}/{ns}/{name} is at version {rv}, never handled: its namespace/CRD appeared while the meta-watch "
+                                  "was down and is not served", F8_SIG))
+                elif not pair_open and SCOPE[plural] and ns is not None and _recreated(sc, ns):
+                    fails.append((f"{plural}/{ns}/{name} is at version {rv}, never handled: its re-created namespace is not served", F7_SIG))
+                elif (plural, ns if SCOPE[plural] and ok_ns is not None else None) not in open_now and plural in r.get("not_found", []) and \
+                        not any(p[0] >= r["not_found_at"][plural] for p in r.get("passes", [])):
                     fails.append((f"{plural}/{ns}/{name} is at version {rv}, the last version a handler saw is {seen.get((plural, ns, name))}: "
-                                  "its watcher exited on HTTP 404 and nothing replaced it", F6_SIG))
+                                  "its watcher exited on HTTP 404 and no pass of adjust_tasks has run since", F6_SIG))
                 elif plural in r.get("not_found", []) and (plural, ns if SCOPE[plural] else None) not in \
                         {(w[0], w[1]) for w in last["watches"]} and (plural, None) not in {(w[0], w[1]) for w in last["watches"]}:
                     fails.append((f"{plural}/{ns}/{name} is at version {rv}, the last version a handler saw is {seen.get((plural, ns, name))}: "
@@ -838,7 +935,33 @@ def eval_operator(sc: dict) -> dict:
         return {"sc": sc, "sim_error": r["sim_error"]}
     fails = oracle_operator(sc, r)
     churn = [o[1] for o in sc["timeline"] if o[1] in ("add_ns", "del_ns", "add_res", "del_res")]
-    return {"sc": sc, "fails": fails, "churn": churn, "checkpoints": len(r["checkpoints"]),
+    nsreq = nsimpl = None
+    feed = r.get("ns_feed") or []
+    if feed and feed[0]["kind"] == "listing0" and not sc.get("clusterwide", True):
+        import fnmatch
+        ok = lambda n: any(fnmatch.fnmatch(n, p) for p in sc["patterns"])  # noqa: E731
+        ids: dict[str, int] = {}
+        kid = lambda n: ids.setdefault(n, len(ids) + 1)  # noqa: E731
+        base = [kid(n) for n in feed[0]["names"] if ok(n)]
+        evs, impl = [], []
+        for f in feed[1:]:
+            if f["kind"] != "event" or not ok(f["name"]):
+                continue
+            evs.append([f["type"], kid(f["name"])])
+            impl.append(sorted(kid(n) for n in f["after"]))
+        nsreq = ["C19.nsfold", base, evs, sorted(ids.values())]
+        nsimpl = impl
+        if sorted(kid(n) for n in feed[0]["after"]) != sorted(base):
+            fails.append(("the observer's own listing did not put exactly the matching namespaces into the insights",
+                          {"site": "observation.namespace_observer", "shape": "insights after the first listing != matching namespaces"}))
+    trace = r.get("orch_trace") or []
+    # a pass cut off by the end of the run is dropped (the trace must end after a spawnAll, or in wait())
+    while trace and trace[-1][0] in ("acquire", "termDone"):
+        trace = trace[:-1]
+    orchreq = ["C19.orch", [l[:1] if l[0] == "spawnAll" else l for l in trace]] if trace else None
+    orchimpl = [l[1] for l in trace if l[0] == "spawnAll"]
+    return {"sc": sc, "fails": fails, "churn": churn, "checkpoints": len(r["checkpoints"]), "nsreq": nsreq, "nsimpl": nsimpl,
+            "orchreq": orchreq, "orchimpl": orchimpl,
             "watch_requests": len(r["watch_requests"]), "calls": len(r["calls"]),
             "shape": [[c["watches"], c["resources"], c["namespaces"]] for c in r["checkpoints"]],
             "detail": r if fails else None}
@@ -925,7 +1048,19 @@ def absorb(ctx: Ctx, res: dict, source: str, pending: dict) -> None:
                  sample={"scenario": case, "checkpoints": res["shape"]} if res["churn"] else None)
         for c in res["churn"]:
             ctx.count("operator_churn", c)
-        ctx.count("operator_runs", "rapid" if case.get("rapid") else "churn")
+        ctx.count("operator_runs", "rapid" if case.get("rapid") else "meta" if case.get("meta") else "churn")
+        if res.get("orchreq") is not None:
+            pending["reqs"].append(res["orchreq"])
+            pending["impl"].append({"enabled": True, "keys_after_each_pass": res["orchimpl"]})
+            pending["where"].append({"kind": kind, "case": case})
+            ctx.count("orchestrator_tie", "labels", len(res["orchreq"][1]))
+            for l in res["orchreq"][1]:
+                ctx.count("orchestrator_labels", l[0])
+        if res.get("nsreq") is not None:
+            pending["reqs"].append(res["nsreq"])
+            pending["impl"].append({"after": res["nsimpl"]})
+            pending["where"].append({"kind": kind, "case": case})
+            ctx.count("insights_tie", "fed items", len(res["nsimpl"]))
         ctx.count("operator_runs", "checkpoints", res["checkpoints"])
         ctx.count("operator_runs", "watch_requests", res["watch_requests"])
 
@@ -942,7 +1077,15 @@ def compare_with_model(ctx: Ctx, pending: dict) -> None:
         if not out or out[0] != "ok":
             ctx.tie_fail("the driver rejected a case", {"request": req[:2], "answer": out, **wh})
             continue
-        if req[0] == "C19.run":
+        if req[0] == "C19.orch":
+            labels = req[1]
+            enabled = "disabled" not in out[1]
+            keys = [sorted(([k[0], k[1]] for k in row), key=str) for l, row in zip(labels, out[1]) if l[0] == "spawnAll" and row != "disabled"]
+            ctx.compare("C19 orchestrator protocol (label trace accepted, keys after each pass)", impl,
+                        {"enabled": enabled, "keys_after_each_pass": keys}, wh)
+        elif req[0] == "C19.nsfold":
+            ctx.compare("C19 namespace insights (observer feed → insights.namespaces)", impl, {"after": out[1]}, wh)
+        elif req[0] == "C19.run":
             model = {"outs": [_canon_outs(o) for o in out[1]["outs"]], "failed": out[1]["phase"] == "failed"}
             ctx.compare("C19 watch-stream (acts → requests/yields)", impl, model, wh)
         else:
@@ -976,6 +1119,11 @@ def run(ctx: Ctx) -> None:
         items.append(("operator", gen_rapid(rng, base + i)))
         sources.append("generated")
     ctx.count("cases", "operator-rapid", n_rapid)
+    n_meta = ctx.budget(60, 1500)
+    for i in range(n_meta):
+        items.append(("operator", gen_meta(rng, base + i)))
+        sources.append("generated")
+    ctx.count("cases", "operator-meta", n_meta)
     ctx.count("cases", "stream", n_stream)
     ctx.count("cases", "adjust", n_adjust)
     ctx.count("cases", "operator", n_oper)
@@ -1001,7 +1149,7 @@ def search(ctx: Ctx, broken: list) -> None:
         items.append(("stream", gen_script(rng, 7_000_000 + i)))
     for i in range(ctx.budget(2000, 20000)):
         items.append(("adjust", gen_history(rng, 7_000_000 + i)))
-    open_sigs = [F2_SIG, F3_SIG, F5_SIG, F6_SIG]
+    open_sigs = [F2_SIG, F3_SIG, F5_SIG, F6_SIG, F7_SIG, F8_SIG]
     for res in _run_items(items, jobs):
         for what, sig in res.get("fails", []):
             if sig not in open_sigs:
